@@ -36,7 +36,16 @@ CaseTags(ev) ==
          \cup (IF ~ShapeOK(keys, d) THEN {"keyset"}
                ELSE UNION { LeafTags(keys, t, p) : p \in LeafPaths(d, <<>>) })
 
+\* L2: is a key path reachable from generated code?  exactly the leaf paths of the default tree are (for every locale)
+CompileTags(ev) ==
+    LET c == Cases[ev.case]
+        reachable == ev.path \in LeafPaths(c.abs.def, <<>>) IN
+    IF reachable /\ ev.got # "ok" THEN {"default-key-not-accessible"}
+    ELSE IF ~reachable /\ ev.got # "fail" THEN {"key-outside-default-locale-is-reachable"}
+    ELSE {}
+
 Tags(ev) == IF ev.ev = "Load" THEN CaseTags(ev)
+            ELSE IF ev.ev = "Compile" THEN CompileTags(ev)
             ELSE IF ev.ev = "Crash" THEN {"crash:" \o ev.outcome}
             ELSE {}
 
